@@ -4,6 +4,7 @@ import json, os, sys
 HERE = os.path.dirname(os.path.dirname(os.path.abspath(__file__)))
 sys.path.insert(0, HERE)
 from tools.manifest_table import CHECKS, NOT_APPLICABLE, ENGINES, NOTES, SOURCE_COMMITS
+from tools import manifest_table
 
 props = [json.loads(l)["id"] for l in open(os.path.join(HERE, "properties.jsonl"))]
 checks = []
@@ -18,7 +19,7 @@ for pid in props:
         "evidence_file": "/verif/evidence/%s.json" % pid,
         "replay_cmd_template": "./check %s --replay {path}" % pid,
         "engine": c["engine"],
-        "level_claimed": {"category": c["category"], "text": c["text"], "design_ref": c["design_ref"]},
+        "level_claimed": {"category": c["category"], "text": c["text"] + (" " + getattr(manifest_table, "EXTRA_TEXT", {}).get(pid, "") if getattr(manifest_table, "EXTRA_TEXT", {}).get(pid) else ""), "design_ref": c["design_ref"]},
         "level_note": c["note"],
         "technique": c["technique"],
     })
